@@ -505,10 +505,12 @@ class Interp:
             if self.in_isolated:
                 raise RefError("DisabledTagError")
             ns = dict(kw)
+            # the bound value is an argument like the keyword arguments: all of them are
+            # evaluated in the enclosing scope, none sees another (repo fix cc1f1fa)
+            v = self.expr(s.arg) if s.mode in ("for", "with") else None
             self.scope.blocks.append(ns)
             try:
                 if s.mode == "for":
-                    v = self.expr(s.arg)
                     if not isinstance(v, (list, tuple)):
                         raise OutOfDomain("include for non-array")
                     for item in v:
@@ -519,7 +521,6 @@ class Interp:
                         finally:
                             self.scope.blocks.pop()
                 elif s.mode == "with":
-                    v = self.expr(s.arg)
                     if isinstance(v, (list, tuple)):
                         raise OutOfDomain("include with array")
                     ns[key] = v
